@@ -448,11 +448,12 @@ func c17Storage(c *Ctx) {
 				}
 				sort.Ints(leftover)
 				sort.Ints(window)
-				if len(window) > maxBuf {
-					c.Violate("storage-window", fmt.Sprintf("track %s keeps %d media segments %v, the window implied by timeShiftBufferDepth=%d s is %d", t.name, len(window), window, tsbd, maxBuf), []string{tag}, nil)
+				if len(window)+len(leftover) > maxBuf {
+					c.Violate("storage-window", fmt.Sprintf("track %s keeps %d media segments %v %v, the window implied by timeShiftBufferDepth=%d s is %d", t.name, len(window)+len(leftover), leftover, window, tsbd, maxBuf), []string{tag}, nil)
 					break
 				}
-				if len(leftover) > 0 {
+				// a file stored under its incoming number has to leave at the pace of the others: once maxBuf later uploads arrived
+				if len(leftover) > 0 && leftover[0] <= int(inSeq0)+nSegs-1-maxBuf {
 					c.Violate("storage-unshifted-leftover", fmt.Sprintf("track %s still stores %v, uploaded before the channel turned out to be shifted: listed by no MPD and never deleted (window %v)", t.name, leftover, window), []string{tag}, nil)
 					break
 				}
